@@ -334,6 +334,109 @@ def _call_is_safe(call):
     return False
 
 
+
+ALIASING_CALLS = {"np.asarray", "np.asanyarray", "np.atleast_1d", "np.atleast_2d", "np.ascontiguousarray", "np.ravel", "np.reshape",
+                  "np.squeeze", "np.transpose", "np.broadcast_to", "np.real", "np.imag", "np.diagonal", "old_bound_to_new", "get_bounds"}
+ALIASING_METHODS = {"view", "reshape", "ravel", "squeeze", "transpose", "T", "real", "flat", "swapaxes", "astype_nocopy"}
+MUTATING_METHODS = {"sort", "fill", "resize", "put", "itemset", "setfield", "partition", "append", "appendleft", "extend", "insert", "pop", "popleft",
+                    "remove", "clear", "update", "setdefault", "reverse", "setflags", "byteswap"}
+INPUT_PARAMS = {"minimize_lbfgsb": ["x0", "bounds", "checkpoint"], "initialize_X_and_G": ["x", "checkpoint"], "get_bounds": ["x0", "bounds"],
+                "clip2bounds": ["x0", "lb", "ub"], "line_search": ["x0", "g0", "d", "lb", "ub"], "get_cauchy_point": ["x", "grad", "lb", "ub"],
+                "subspace_minimization": ["x", "xc", "c", "grad", "lb", "ub"], "get_freev": ["x_cp", "lb", "ub"],
+                "max_allowed_steplength": ["x", "d", "lb", "ub"], "projgr": ["x", "grad", "lb", "ub"],
+                "update_X_and_G": ["xk", "gk"], "is_update_X_and_G": ["xk", "gk", "x_old", "g_old"],
+                "update_lbfgs_matrices": ["xk", "gk"], "extract_hess_inv_diag": ["hess_inv"],
+                "get_gradient_projection_unit_scaling": ["x", "grad", "lbounds", "ubounds"]}
+
+
+def _may_alias(node, tainted):
+    """Does the value of this expression possibly share memory with a tainted (caller-owned) array?"""
+    if isinstance(node, ast.Name):
+        return node.id in tainted
+    if isinstance(node, ast.Attribute):
+        if node.attr in ("fun", "nit", "nfev", "njev", "status", "message", "success", "size", "shape", "ndim", "dtype"):
+            return False                                 # immutable scalars / metadata
+        return _may_alias(node.value, tainted)
+    if isinstance(node, ast.Subscript):
+        return _may_alias(node.value, tainted)          # basic slicing returns a view
+    if isinstance(node, ast.Starred):
+        return _may_alias(node.value, tainted)
+    if isinstance(node, (ast.Tuple, ast.List)):
+        return any(_may_alias(e, tainted) for e in node.elts)
+    if isinstance(node, ast.IfExp):
+        return _may_alias(node.body, tainted) or _may_alias(node.orelse, tainted)
+    if isinstance(node, ast.Call):
+        name = ast.unparse(node.func)
+        if name in ALIASING_CALLS:
+            return any(_may_alias(a, tainted) for a in node.args)
+        if isinstance(node.func, ast.Attribute) and node.func.attr in ALIASING_METHODS:
+            return _may_alias(node.func.value, tainted)
+        if isinstance(node.func, ast.Attribute) and node.func.attr == "astype":
+            cp = [k for k in node.keywords if k.arg == "copy"]
+            return bool(cp) and ast.unparse(cp[0].value) == "False" and _may_alias(node.func.value, tainted)
+        if name in ("np.array",):
+            cp = [k for k in node.keywords if k.arg == "copy"]
+            return bool(cp) and ast.unparse(cp[0].value) == "False" and any(_may_alias(a, tainted) for a in node.args)
+        return False                                     # other calls (np.copy, arithmetic helpers, constructors) return fresh objects
+    return False
+
+
+def input_alias_writes():
+    """In-place writes to objects that may share memory with the caller's arguments (x0, bounds, checkpoint.*, and the array
+    arguments of the kernels): augmented assignment, item/attribute stores, mutating methods, out= arguments."""
+    found = []
+    for fn in sorted(os.listdir(PKG)):
+        if not fn.endswith(".py"):
+            continue
+        tree = ast.parse(_src(fn))
+        for f in [n for n in ast.walk(tree) if isinstance(n, ast.FunctionDef) and n.name in INPUT_PARAMS]:
+            tainted = set(INPUT_PARAMS[f.name])
+            # flow-insensitive fixpoint over the assignments of the function
+            changed = True
+            while changed:
+                changed = False
+                for st in ast.walk(f):
+                    if isinstance(st, ast.Assign) and _may_alias(st.value, tainted):
+                        for t in st.targets:
+                            for nm in ([t] if isinstance(t, ast.Name) else (t.elts if isinstance(t, (ast.Tuple, ast.List)) else [])):
+                                if isinstance(nm, ast.Name) and nm.id not in tainted:
+                                    tainted.add(nm.id)
+                                    changed = True
+                    elif isinstance(st, ast.AnnAssign) and st.value is not None and _may_alias(st.value, tainted) and isinstance(st.target, ast.Name) \
+                            and st.target.id not in tainted:
+                        tainted.add(st.target.id)
+                        changed = True
+                    elif isinstance(st, ast.For) and _may_alias(st.iter, tainted):
+                        for nm in ast.walk(st.target):
+                            if isinstance(nm, ast.Name) and nm.id not in tainted:
+                                tainted.add(nm.id)
+                                changed = True
+            for st in ast.walk(f):
+                if isinstance(st, ast.AugAssign):
+                    base = st.target
+                    while isinstance(base, (ast.Subscript, ast.Attribute)):
+                        base = base.value
+                    if isinstance(base, ast.Name) and base.id in tainted:
+                        found.append((fn, f.name, " ".join(ast.unparse(st).split())))
+                elif isinstance(st, ast.Assign):
+                    for t in st.targets:
+                        for tt in (t.elts if isinstance(t, (ast.Tuple, ast.List)) else [t]):
+                            if isinstance(tt, (ast.Subscript, ast.Attribute)):
+                                base = tt
+                                while isinstance(base, (ast.Subscript, ast.Attribute)):
+                                    base = base.value
+                                if isinstance(base, ast.Name) and base.id in tainted:
+                                    found.append((fn, f.name, " ".join(ast.unparse(st).split())[:120]))
+                elif isinstance(st, ast.Call):
+                    if isinstance(st.func, ast.Attribute) and st.func.attr in MUTATING_METHODS and _may_alias(st.func.value, tainted) \
+                            and isinstance(st.func.value, (ast.Name, ast.Attribute, ast.Subscript)):
+                        found.append((fn, f.name, " ".join(ast.unparse(st).split())[:120]))
+                    for k in st.keywords:
+                        if k.arg == "out" and _may_alias(k.value, tainted):
+                            found.append((fn, f.name, " ".join(ast.unparse(st).split())[:120]))
+    return found
+
+
 def gen_handlers():
     """Every try/except, `with` and `raise ... from` site of the package, and which of them may enclose a call
     that is not to a whitelisted library function (i.e. may reach a user callable); every call to a function
@@ -364,6 +467,8 @@ def gen_handlers():
                 for t in st.targets:
                     if isinstance(t, ast.Name):
                         modnames.add(t.id)
+            elif isinstance(st, ast.AnnAssign) and isinstance(st.target, ast.Name):
+                modnames.add(st.target.id)
             elif isinstance(st, ast.ClassDef):
                 modnames.add(st.name)
         for node in ast.walk(tree):
@@ -401,6 +506,7 @@ def gen_handlers():
             # stores into module-level objects / class attributes from inside a function
             if isinstance(node, (ast.Assign, ast.AugAssign, ast.AnnAssign)) and func_of(node) != "<module>":
                 tgts = node.targets if isinstance(node, ast.Assign) else [node.target]
+                tgts = [e for t in tgts for e in (t.elts if isinstance(t, (ast.Tuple, ast.List)) else [t])]
                 for t in tgts:
                     base = t
                     while isinstance(base, (ast.Attribute, ast.Subscript)):
@@ -437,6 +543,8 @@ def gen_handlers():
     L.append("Definition global_state_mutator_calls : list (string * string * string) :=\n  " + lst(mutators) + ".")
     L.append("(* writes, from inside a function, into module-level objects, class attributes or mutable default arguments *)")
     L.append("Definition shared_write_sites : list (string * string * string) :=\n  " + lst(globwrites) + ".")
+    L.append("(* in-place writes to objects that may share memory with the caller's arguments (x0, bounds, checkpoint.*, kernel array arguments) *)")
+    L.append("Definition input_alias_write_sites : list (string * string * string) :=\n  " + lst(input_alias_writes()) + ".")
     return "\n".join(L) + "\n"
 
 
